@@ -7,7 +7,8 @@
    pymap's own types and parsers guarantee about a response object; nothing in
    it restricts a client-influenced string or structure). *)
 From PV Require Import Base.Prelude Base.Decimal Resp.Grammar Resp.Printer Resp.Wf
-  Resp.LexProofs Resp.ListProofs Resp.BodyProofs Resp.RespProofs Resp.Examples Resp.C07Proofs.
+  Resp.LexProofs Resp.ListProofs Resp.BodyProofs Resp.RespProofs Resp.Examples Resp.C07Proofs
+  Resp.Producer Resp.ProducerProofs Resp.StoreBridge.
 
 (* C07.  Whatever sequence of response objects a connection writes -- with
    arbitrary mailbox names (any code points), flags and keywords, header-derived
@@ -104,3 +105,67 @@ Theorem C07_empty_text_refuted :
             print_resp r = bad_empty_text.
 Proof. exact empty_text_refuted. Qed.
 Print Assumptions C07_empty_text_refuted.
+
+(* ============ the hypothesis [wf_resp], proved for producers of responses ============ *)
+(* Resp/Producer.v models what builds the response objects (Tag.parse,
+   Flag.parse, InvalidCommand.message, check_command, do_select, do_status,
+   do_list, do_capability, do_id, MailboxData.snapshot, random object ids,
+   new_uid_validity, ListEntry.attributes).  For these commands C07 needs no
+   measured hypothesis: for every byte string the client sends as its tag and
+   every content of the mailbox, the bytes written are a well-formed stream. *)
+Theorem C07_tag_of_any_client_input : forall buf tag rest,
+  parse_tag buf = Some (tag, rest) -> wf_tag tag = true.
+Proof. exact parse_tag_wf. Qed.
+Print Assumptions C07_tag_of_any_client_input.
+
+Theorem C07_flag_of_any_client_input : forall buf f rest,
+  parse_flag buf = Some (f, rest) -> wf_flag f = true.
+Proof. exact parse_flag_wf. Qed.
+Print Assumptions C07_flag_of_any_client_input.
+
+Theorem C07_select : forall line tag rest sn,
+  parse_tag line = Some (tag, rest) ->
+  wf_response (print_stream (do_select tag sn)) = true.
+Proof. exact select_stream_wf. Qed.
+Print Assumptions C07_select.
+
+Theorem C07_status : forall line tag rest name req sn,
+  parse_tag line = Some (tag, rest) ->
+  wf_response (print_stream (do_status tag name req sn)) = true.
+Proof. exact status_stream_wf. Qed.
+Print Assumptions C07_status.
+
+Theorem C07_list : forall line tag rest lsub entries,
+  parse_tag line = Some (tag, rest) ->
+  wf_response (print_stream (do_list tag lsub entries)) = true.
+Proof. exact list_stream_wf. Qed.
+Print Assumptions C07_list.
+
+(* BAD for an unknown or malformed command echoes words the client chose *)
+Theorem C07_invalid_command : forall line words known,
+  Forall (fun w => exists b r, parse_atom b = Some (w, r)) words ->
+  wf_response (print_stream
+    [invalid_command (option_map fst (parse_tag line)) words known]) = true.
+Proof. exact invalid_stream_wf. Qed.
+Print Assumptions C07_invalid_command.
+
+Theorem C07_status_lines_wf : forall tag c cd k,
+  wf_tag tag = true -> In c COMMANDS -> opt_all wf_code cd = true ->
+  wf_resp (completed tag c cd) = true /\ wf_resp (refuse tag c k) = true.
+Proof. exact status_lines_wf. Qed.
+Print Assumptions C07_status_lines_wf.
+
+(* Composition with the message-store model of C01/C02 (Store/System.v): in
+   every state reachable by any number of sessions running any commands in any
+   interleaving, the EXPUNGE / EXISTS / RECENT / FETCH (FLAGS [UID]) / SEARCH
+   responses a step produces, rendered as response objects (keyword names: any
+   table of atoms), satisfy wf_resp -- sequence numbers and UIDs are non-zero
+   by the store invariant and its shadow-client theorem -- so their
+   serialisation is a well-formed stream. *)
+Theorem C07_store_message_data : forall kw ls l s,
+  (forall n, wf_atom (kw n) = true) ->
+  let sy := System.exec System.sys_empty ls in
+  System.label_actor l = Some s -> System.view_of (fst (System.step sy l)) s <> None ->
+  wf_response (print_stream (render_all kw (snd (System.step sy l)))) = true.
+Proof. exact store_step_stream_wf. Qed.
+Print Assumptions C07_store_message_data.
